@@ -145,7 +145,7 @@ def _compile_seq(nfa, seq, flags, cur, wanted, alpha):
             if ops == 'POSSESSIVE_REPEAT':
                 raise AnalysisError('unsupported regex construct: possessive repeat')
             lo, hi, sub = av
-            if wanted and _has_wanted_group(sub, wanted):
+            if wanted and hi > 1 and _has_wanted_group(sub, wanted):
                 raise AnalysisError('a group that is read by the code sits inside a repeat')
             if lo > 64 or (hi != MAXREPEAT and hi > 64):
                 raise AnalysisError('repeat bound too large for the analyser')
@@ -584,10 +584,21 @@ def capture_agreement(reader, rflags, rmode, template, tflags, groups, alpha=Non
     markers = [(k, g) for g in groups for k in ('open', 'close')]
     kind = 'bytes' if isinstance(reader, bytes) else 'str'
     alpha = alpha or alphabet(kind)
-    Rm = _renamed(regex_lang(reader, rflags, rmode, [rgroups[g] for g in groups], None, alpha), markers)
     Tm = regex_lang(template, tflags, 'fullmatch', groups, markers, alpha)
-    Re = regex_lang(reader, rflags, rmode, (), [], alpha)
     Te = regex_lang(template, tflags, 'fullmatch', (), [], alpha)
+    return agreement(reader, rflags, rmode, Tm, Te, groups, rgroups, alpha)
+
+
+def agreement(reader, rflags, rmode, Tm, Te, groups, rgroups=None, alpha=None):
+    """capture agreement against a template given as automata (Tm marked, Te erased)"""
+    rgroups = rgroups or {g: g for g in groups}
+    markers = [(k, g) for g in groups for k in ('open', 'close')]
+    kind = 'bytes' if isinstance(reader, bytes) else 'str'
+    alpha = alpha or alphabet(kind)
+    if Tm.markers != markers:
+        raise AnalysisError('internal: template markers differ from the requested groups')
+    Rm = _renamed(regex_lang(reader, rflags, rmode, [rgroups[g] for g in groups], None, alpha), markers)
+    Re = regex_lang(reader, rflags, rmode, (), [], alpha)
     w1 = Te.not_subset_witness(Re)
     nA = alpha.n
     seen = {(0, 0, 0): None}
@@ -623,3 +634,43 @@ def _renamed(lang, markers):
 def literal(text):
     """regex source text matching exactly `text`"""
     return re.escape(text)
+
+
+# ---- languages over Σ ∪ markers used to express conditions on groups ---------------------------
+
+def has_group(alpha, markers, g):
+    """marked strings in which group g participates"""
+    markers = list(markers)
+    k = alpha.n + markers.index(('open', g))
+    return from_function(alpha, markers, 0, lambda s, sym: 1 if (s == 1 or sym == k) else 0, lambda s: s == 1)
+
+
+def group_content(alpha, markers, g, lang):
+    """marked strings in which g participates and its content (other markers erased) is in `lang`"""
+    markers = list(markers)
+    ko = alpha.n + markers.index(('open', g))
+    kc = alpha.n + markers.index(('close', g))
+    nA = alpha.n
+
+    def step(s, sym):
+        ph, q = s
+        if ph == 'dead':
+            return s
+        if sym == ko:
+            return ('in', 0) if ph == 'before' else ('dead', 0)
+        if sym == kc:
+            if ph == 'in':
+                return ('ok', 0) if lang.acc[q] else ('bad', 0)
+            return ('dead', 0)
+        if ph == 'in' and sym < nA:
+            return ('in', lang.trans[q][sym])
+        return s
+    return from_function(alpha, markers, ('before', 0), step, lambda s: s[0] == 'ok')
+
+
+def lift(lang, markers):
+    """an unmarked language as a language over Σ ∪ markers (markers ignored)"""
+    markers = list(markers)
+    nA = lang.alpha.n
+    trans = [row[:nA] + [q] * len(markers) for q, row in enumerate(lang.trans)]
+    return Lang(trans, list(lang.acc), lang.alpha, markers)
